@@ -478,8 +478,11 @@ async fn stream_conn_peer(led: Led, kn: Knobs, server: usize, health: Health, ac
             ev!("peer{} conn{} tx {} octets", server, index, bytes.len());
             // Any complete message carrying an id releases the client's slot
             // for that id (even if it is not accepted as the answer).
-            // (A transfer's id is released by its last message only.)
-            let mid_transfer = bytes.len() >= 14 && xfer_final.get(&u16::from_be_bytes([bytes[2], bytes[3]])).is_some_and(|f| *f != bytes);
+            // (A transfer's id is released by its last message only - or by
+            // any message with an error code that carries its id, such as a
+            // stale header-only reply to an earlier holder of the id: a
+            // streaming request ends at an error.)
+            let mid_transfer = bytes.len() >= 14 && bytes[5] & 0x0f == 0 && xfer_final.get(&u16::from_be_bytes([bytes[2], bytes[3]])).is_some_and(|f| *f != bytes);
             if bytes.len() >= 14 && !mid_transfer {
                 let id = u16::from_be_bytes([bytes[2], bytes[3]]);
                 if xfer_final.remove(&id).is_some() {
@@ -604,6 +607,7 @@ async fn stream_conn_peer(led: Led, kn: Knobs, server: usize, health: Health, ac
                     dns::mk_xfer_msgs(&body, kn.xfer_msgs.max(1) as usize)
                 };
                 let now = sim::now_ns();
+                ev!("peer{} Stream rx transfer request id={} ({} message(s) to come)", server, p.id, msgs.len());
                 let mut at = now + sim::draw("peer.xfer_first_ms", 5) * 1_000_000;
                 for (i, m) in msgs.iter().enumerate() {
                     let framed = dns::frame(m);
